@@ -36,6 +36,7 @@ func init() {
 			kvSingleLiveVersion(r)
 			c17Pack(r)
 			c10Idle(r)
+			fragmentStatsTruthful(r)
 		},
 	})
 }
